@@ -2,7 +2,7 @@
 # usage: tools/try_refactors.sh <dir with rK.diff> <k...>   — applies each behaviour-preserving change to a scratch
 # worktree of /repo HEAD and runs every quick check against it from a snapshot of /verif; any alarm is a false alarm.
 src=$1; shift
-snap=/tmp/verif_snap
+snap=/tmp/verif_snap_$$
 rm -rf $snap; mkdir -p $snap; rsync -a --exclude out --exclude .git /verif/ $snap/
 for k in "$@"; do
   wt=/tmp/wt_rf_$k
@@ -17,3 +17,4 @@ for k in "$@"; do
   done
   git -C /repo worktree remove --force $wt
 done
+rm -rf $snap
